@@ -606,6 +606,192 @@ def rule_N4(ctx):
 
 
 
+# ------------------------------------------------------------------------ '(n)' numbering inside one duplicate group
+def _numbering(ctx, fn, cfg, f3, setter, gdict):
+    """Members of a duplicate group: the first keeps the plain name, every later one gets add_count(name, i) for a counter that
+    only grows, starts at 2 for the second member and skips every count whose name is taken.  The first member may be handled
+    by the first iteration of the loop or by a peeled statement before a loop over the rest.  Returns a list of problems."""
+    from .streams import _walk
+    from .util import evaluator
+    from ..core.terms import Term, cmp_struct
+    probs = []
+    calls = [c for c in ast.walk(f3) if isinstance(c, ast.Call) and norm(c.func).split(".")[-1] == "_add_count_to_name"]
+    ivars = {norm(c.args[1]) for c in calls if len(c.args) == 2 and not c.keywords}
+    if not calls or len(ivars) != 1 or any(len(c.args) != 2 or norm(c.args[0]) != "name" for c in calls):
+        return [f"counted names are built as {[norm(c) for c in calls]}"]
+    i = next(iter(ivars))
+    # the statement list that holds the member loop
+    par = getattr(f3, "_parent", None)
+    block = None
+    for field in ("body", "orelse"):
+        if par is not None and f3 in getattr(par, field, []):
+            block = getattr(par, field)
+    if block is None:
+        return ["member loop is not a plain statement of the group loop"]
+    pre = block[:block.index(f3)]
+    c0 = None
+    peeled = []
+    for st in pre:
+        if isinstance(st, ast.Assign) and len(st.targets) == 1 and norm(st.targets[0]) == i and isinstance(st.value, ast.Constant) and isinstance(st.value.value, int):
+            c0 = st.value.value
+        for c in ast.walk(st):
+            if isinstance(c, ast.Call) and isinstance(c.func, ast.Name) and c.func.id == setter and not isinstance(st, ast.If):
+                peeled.append(c)
+    if c0 is None:
+        return [f"counter `{i}` has no constant start before the member loop"]
+    it = f3.iter
+    S = None
+    if isinstance(it, ast.Name):
+        S, rest = it.id, False
+    elif isinstance(it, ast.Subscript) and isinstance(it.value, ast.Name) and norm(it.slice) == "1:":
+        S, rest = it.value.id, True
+    else:
+        return [f"members are taken from `{norm(it)}`"]
+    if rest != bool(peeled):
+        return ["the first member is " + ("named twice" if peeled else "never named")]
+    if peeled:
+        if len(peeled) != 1 or [norm(a) for a in peeled[0].args] != [f"{S}[0]", "name"] or peeled[0].keywords:
+            probs.append(f"first member named by `{norm(peeled[0])}`")
+    lp = cfg.loop_of(f3)
+    inner = [w for w in ast.walk(f3) if isinstance(w, ast.While)]
+    if len(inner) != 1:
+        return probs + [f"{len(inner)} skip loops"]
+    w = inner[0]
+    ilp = cfg.loop_of(w)
+    A_i = Term.atom(i + "~")
+
+    def low(t, lo):
+        """lower bound of an affine term in i~ (None when not of that shape)"""
+        if not t.atoms() <= {i + "~"}:
+            return None
+        k = t.coeff(i + "~")
+        if k < 0:
+            return None
+        return k * lo + t.value() if k else t.value()
+
+    def decide(pr, lo, concrete):
+        """False when a test on the counter contradicts the branch taken"""
+        for ck, taken, tst_st in pr.conds:
+            snap = next((s_.env for s_ in pr.steps if s_.ast is tst_st and s_.kind == "test"), None)
+            if snap is None:
+                continue
+            cs = cmp_struct(evaluator(ctx, fn, snap), tst_st.test)
+            if cs is None:
+                continue
+            d, sym = cs
+            if not d.atoms() <= {i + "~"} or (not d.atoms() and not concrete and False):
+                continue
+            if not d.atoms():
+                v = d.value()
+                truth = {"<": v < 0, "<=": v <= 0, ">": v > 0, ">=": v >= 0, "==": v == 0, "!=": v != 0}[sym]
+            else:
+                mn = low(d, lo)
+                if mn is None:
+                    continue
+                truth = True if (sym in (">", "!=") and mn > 0) or (sym == ">=" and mn >= 0) else (False if (sym in ("<=", "==") and mn > 0) or (sym == "<" and mn >= 0) else None)
+            if truth is not None and truth != taken:
+                return False
+        return True
+
+    def named(pr):
+        out = []
+        for c, env, st in calls_on(pr):
+            if isinstance(c.func, ast.Name) and c.func.id == setter:
+                out.append((c, env))
+        return out
+
+    # the skip loop: invariant next == add_count(name, i); the counter grows; the only way out is an untaken name (or giving up)
+    nn = None
+    for kind, path, edge in cfg.iteration_paths(ilp):
+        pr = _walk(ctx, fn, cfg, path)
+        if kind == "exit":
+            if len(path) != 1 and not any(cfg.nodes[x].kind == "raise" for x, _ in path):
+                probs.append("the skip loop can be left while the name is still taken")
+            continue
+        if kind != "back":
+            continue
+        if not pr.conds:
+            probs.append("skip loop without a test")
+            continue
+        m = re.fullmatch(r"In\((\w+)~," + re.escape(gdict) + r"(?:\.keys\(\))?\)", pr.conds[0][0])
+        if m is None or pr.conds[0][1] is not True:
+            probs.append(f"skip loop runs while `{pr.conds[0][0]}`")
+            continue
+        nn = m.group(1)
+        i_end = pr.env.get(i)
+        d = (i_end - A_i) if i_end is not None else None
+        if d is None or not d.is_const() or d.value() < 1:
+            probs.append("a skipped count is tried again")
+        nx = pr.env.get(nn)
+        if nx is None or i_end is None or nx.key() != f"self._add_count_to_name(name,{i_end.key()})":
+            probs.append(f"after a skip the candidate is `{nx.key() if nx is not None else None}` for counter `{i_end.key() if i_end is not None else None}`")
+    if nn is None:
+        return probs + ["skip loop does not test the candidate against the taken names"]
+    head_i = next((x for x, _ in [(ilp.head, None)]), None)
+    seen = {"first": set(), "later": set()}
+    for phase in ("first", "later"):
+        for kind, path, edge in cfg.iteration_paths(lp):
+            if kind == "exit" and len(path) == 1:
+                continue
+            if kind != "back":
+                if not any(cfg.nodes[x].kind == "raise" for x, _ in path):
+                    probs.append("a member can end the numbering of its group")
+                continue
+            cut = next((k for k, (x, _) in enumerate(path) if x == ilp.head), None)
+            prefix = path if cut is None else path[:cut]
+            if phase == "first":
+                pr = _walk(ctx, fn, cfg, prefix, env0={i: Term.const(c0)}, keep=(i,))
+                lo = c0
+            else:
+                pr = _walk(ctx, fn, cfg, prefix)
+                lo = c0 + 1
+            if not decide(pr, lo, phase == "first"):
+                continue
+            full_pr = _walk(ctx, fn, cfg, path)
+            sets = named(full_pr)
+            if len(sets) != 1 or norm(sets[0][0].args[0]) != norm(f3.target):
+                probs.append(f"{len(sets)} names given to a member on one path")
+                continue
+            c, env = sets[0]
+            first_member = phase == "first" and not peeled
+            if cut is None:
+                val = evaluator(ctx, fn, env).ev(c.args[1]).key()
+                if val == "name":
+                    seen[phase].add("plain")
+                    if not first_member:
+                        probs.append("a later member can receive the plain name")
+                    continue
+                # counted without entering the skip test at all: names taken by other groups are not skipped
+                probs.append(f"a member is named `{val[:80]}` without the taken-name check")
+                continue
+            if first_member:
+                probs.append("the first member does not keep the plain name")
+                continue
+            seen[phase].add("counted")
+            i_in = pr.env.get(i)
+            nx = pr.env.get(nn)
+            if i_in is None or nx is None or nx.key() != f"self._add_count_to_name(name,{i_in.key()})":
+                probs.append(f"candidate `{nx.key() if nx is not None else None}` does not follow the counter `{i_in.key() if i_in is not None else None}`")
+                continue
+            mn = low(i_in, lo) if phase == "later" else (i_in.value() if i_in.is_const() else None)
+            if mn is None or mn < 2:
+                probs.append(f"a later member can get the count {mn}")
+            grow = (i_in - A_i) if phase == "later" else None
+            if phase == "later" and (not grow.is_const() or grow.value() < 1):
+                probs.append("two members can get the same count")
+            # between the skip loop and the naming nothing touches candidate or counter, and the candidate is what is assigned
+            after = [cfg.nodes[x].ast for x, _ in path[cut + 1:] if cfg.nodes[x].kind == "stmt" and cfg.nodes[x].ast is not None and not any(n_ is cfg.nodes[x].ast for n_ in ast.walk(w))]
+            touched = [a for a in after if any(isinstance(n_, ast.Name) and n_.id in (nn, i) and isinstance(n_.ctx, ast.Store) for n_ in ast.walk(a))]
+            if touched or norm(c.args[1]) != nn:
+                probs.append("the name assigned is not the candidate that passed the taken-name check")
+    if not peeled and seen["first"] != {"plain"}:
+        probs.append(f"first member: {sorted(seen['first'])}")
+    if "counted" not in seen["later"]:
+        probs.append("no counted name for later members")
+    return probs
+
+
+
 # ------------------------------------------------------------------------ ancestor-chain builder (export_path)
 def _chain_climb(ctx, fn, rule):
     """The function walks a linked chain with one cursor and collects one value per link into one list.  Returns a dict:
@@ -1168,29 +1354,9 @@ def rule_N7(ctx):
             ok = len(sets) == 1 and [norm(a) for a in sets[0].value.args] == ["element", "name"]
             ctx.ob("N7", f2, "a name used by a single element is assigned unchanged", ok, "", inst="single-set")
     # numbering: first keeps the name, later ones get _add_count_to_name(name, i) and skip taken names
-    from .streams import _walk
-    from .util import evaluator
-    seen_first = seen_later = False
-    okn = True
-    for kind, path, edge in cfg.iteration_paths(lp):
-        if kind != "back":
-            continue
-        pr = _walk(ctx, fn, cfg, path)
-        for c, env, st in calls_on(pr, name="f_set"):
-            val = evaluator(ctx, fn, env).ev(c.args[1]).key() if len(c.args) == 2 else "?"
-            defs = [x.ast for x in pr.steps if x.kind == "stmt" and isinstance(x.ast, ast.Assign) and norm(x.ast.targets[0]) == norm(c.args[1])]
-            if val == "name":
-                seen_first = True
-            elif val.startswith("self._add_count_to_name(name,") or (defs and all(isinstance(d.value, ast.Call) and norm(d.value.func) == "self._add_count_to_name"
-                                                                               and norm(d.value.args[0]) == "name" for d in defs)):
-                seen_later = True
-            else:
-                okn = False
-    wl = [w for w in ast.walk(f3) if isinstance(w, ast.While)]
-    okw = len(wl) == 1 and isinstance(wl[0].test, ast.Compare) and len(wl[0].test.ops) == 1 and isinstance(wl[0].test.ops[0], ast.In) \
-        and norm(wl[0].test.left) == "next_name" and norm(wl[0].test.comparators[0]) in ("candidate_names", "candidate_names.keys()")
-    ok = okn and seen_first and seen_later and okw
-    ctx.ob("N7", f3, "the first duplicate keeps the name, later ones get '(n)' counters that skip names already taken by another group", ok, "", inst="numbering")
+    nprobs = _numbering(ctx, fn, cfg, f3, setter, gdict)
+    ok = not nprobs
+    ctx.ob("N7", f3, "the first duplicate keeps the name, later ones get '(n)' counters that skip names already taken by another group", ok, "; ".join(dict.fromkeys(nprobs))[:300], inst="numbering")
     rets = [r for r in own_nodes(fn) if isinstance(r, ast.Return)]
     ok = len(rets) == 1 and norm(rets[0].value) in ("result", "elements")
     ctx.ob("N7", fn, "the routine returns the same element list (renaming in place, no element dropped)", ok, "", inst="returns-elements")
